@@ -326,3 +326,43 @@ func loopBody(n ast.Node) *ast.BlockStmt {
 	}
 	return nil
 }
+
+// entryExitsWithout reports whether some path from the function entry reaches an exit (return
+// or end of body) without executing a node accepted by via. Blocks ending in a no-return call
+// are not exits.
+func (fg *FlowGraph) entryExitsWithout(via func(ast.Node) bool) bool {
+	if len(fg.G.Blocks) == 0 {
+		return true
+	}
+	seen := map[*cfg.Block]bool{}
+	var walk func(b *cfg.Block) bool
+	walk = func(b *cfg.Block) bool {
+		for _, n := range b.Nodes {
+			if via(n) {
+				return false
+			}
+		}
+		if len(b.Succs) == 0 {
+			if len(b.Nodes) > 0 {
+				if es, ok := b.Nodes[len(b.Nodes)-1].(*ast.ExprStmt); ok {
+					if call, ok := es.X.(*ast.CallExpr); ok && noReturn(fg.Info, call) {
+						return false
+					}
+				}
+			}
+			return true
+		}
+		for _, s := range b.Succs {
+			if seen[s] {
+				continue
+			}
+			seen[s] = true
+			if walk(s) {
+				return true
+			}
+		}
+		return false
+	}
+	seen[fg.G.Blocks[0]] = true
+	return walk(fg.G.Blocks[0])
+}
